@@ -5,6 +5,7 @@
 //   L  SDAI_LOGICAL::ReadEnum   B  SDAI_BOOLEAN::ReadEnum   E  a three-item enumeration (AHEAD, BEHIND, A1)
 //      (needDelims = 1); value printed: the index assigned (asInt) or - when null
 //   T  SDAI_String::STEPread(in, &err): value printed = hex of the stored literal (or -)
+//   Y  SDAI_Binary::STEPread(in, &err): value printed = the stored digits (or -); then the text STEPwrite gives for it
 // answer: kind assigned value severity remaining eof fail   (one line)
 #include <cstdio>
 #include <cstring>
@@ -18,6 +19,7 @@
 #include "clutils/errordesc.h"
 #include "cldai/sdaiEnum.h"
 #include "cldai/sdaiString.h"
+#include "cldai/sdaiBinary.h"
 
 class TestEnum : public SDAI_Enum {
     public:
@@ -104,6 +106,22 @@ int main() {
             ErrorDescriptor ret;
             ret.severity( sev );
             tail( in, "T", hx.empty() ? 0 : 1, hx.empty() ? "-" : hx, ret );
+        } else if( k == 'Y' ) {
+            std::istringstream in( data );
+            ErrorDescriptor err;
+            SDAI_Binary bv;
+            bv.STEPread( in, &err );
+            std::string v = bv.c_str() ? bv.c_str() : "";
+            std::string w;
+            bv.STEPwrite( w );
+            int eof = in.eof() ? 1 : 0, fail = in.fail() ? 1 : 0;
+            in.clear();
+            std::string restbuf;
+            char c;
+            while( in.get( c ) ) {
+                restbuf += c;
+            }
+            printf( "Y %d %s %d %d %d %d %s\n", v.empty() ? 0 : 1, v.empty() ? "-" : v.c_str(), ( int )err.severity(), ( int )restbuf.size(), eof, fail, w.empty() ? "-" : w.c_str() );
         } else if( k == 'W' ) {
             double d = strtod( data.c_str(), 0 );
             char rbuf[64];
